@@ -1,2 +1,3 @@
-From WS Require Export corr.Srp.
-Definition run_C02 := run_SRP.
+From WS Require Export corr.Srp corr.SrpBig.
+(* evaluated with the accelerated runner; corr/SrpBig.v proves run_SRP_big = run_SRP *)
+Definition run_C02 := run_SRP_big.
